@@ -74,7 +74,7 @@ META = {
                 "6(3δ+3δ²+δ³) ≤ atol+rtol (valid up to rounding ⇒ accepted) — only the value of δ for the float code is measured",
                 "non-mutation of the argument is monitored on every generated call (bit-for-bit, incl. the storage around views), not proved — "
                 "the model consists of pure functions, it has no notion of aliasing",
-                "inside the gimbal band the rebuilt matrix is proved within 48·sqrt(eps) of X.matrix() in all nine entries for 0 ≤ eps ≤ 1/25 "
+                "inside the gimbal band the rebuilt matrix is proved within 48·sqrt(eps) of X.matrix() in all nine entries for 0 ≤ eps ≤ 1/25, and for every eps ≥ 0 and every regime by euler_rebuild_near_always "
                 "(euler_band_full; first column and third row within 2·sqrt(1−t2²) for any eps ≥ 0, euler_band_column_row; 2×2 block within "
                 "48·sqrt(1−|t2|), euler_band_block; exact lock exact, euler_gimbal_lock_exact) — over the reals; the constant 48 is not tight, the "
                 "float code's distance is measured (oracle `gimbal`, worst 1.12·acos|t2|)",
